@@ -261,7 +261,8 @@ class HGCfg:
     def source(self):
         f = FSCfg(self.elem, self.cmp, "less", self.under, self.alloc)
         src = f.source().replace('"flatset_history_main.hpp"', '"hint_grid_main.hpp"').replace(f.name, self.name)
-        return src
+        maxn = int(self.under[1:]) if self.under.startswith("f") else 1000000  # bounded underlying vector: no large-set sweep
+        return ("#define VF_HG_MAX_N %d\n" % maxn) + src
 
     def spec(self):
         return {"name": self.name, "source": self.source(), "std": self.std, "compiler": self.compiler, "extra": ["-DAMC_NONSTD_FEATURES"]}
